@@ -1233,6 +1233,31 @@ func firstReqFamily() []*plan {
 	return out
 }
 
+// boundaryFamily: produce v9, one topic with 16 partitions, BrokerMaxWriteBytes 2048, one
+// record per partition produced at the same instant under a linger. Value lengths l (for
+// fifteen partitions) run over the range in which the encoded batch is 125-130 bytes long,
+// i.e. across the point where the compact length prefix of the records field grows from one
+// to two bytes (batch length 127); the client id (part of every request header) is 1-141
+// bytes long, sliding the room left for batches one byte at a time while the request is packed
+// with as many of the equal batches as fit. A size accounting that is off by a byte per batch exactly at
+// that boundary shows only here.
+func boundaryFamily() []*plan {
+	var out []*plan
+	for l := 53; l <= 60; l++ {
+		for k := 0; k <= 140; k++ {
+			cid := strings.Repeat("c", 1+k)
+			p := &plan{PV: 9, MetaMax: 13, Mode: modePlain, Acks: -1, ClientID: &cid,
+				Topics: []topicPlan{{Name: "t", Parts: 16}}, W: 2048, B: 1024, Linger: 20 * time.Millisecond}
+			p.Recs = append(p.Recs, recPlan{T: 0, P: 0, ValLen: 1, ValMode: 1, TsMs: 1700000000000, Flush: true})
+			for part := int32(0); part < 16; part++ {
+				p.Recs = append(p.Recs, recPlan{T: 0, P: part, ValLen: l, ValMode: 1, TsMs: 1700000000001})
+			}
+			out = append(out, p)
+		}
+	}
+	return out
+}
+
 var decideOnce sync.Once
 
 func firstWith(errs []string, needle string) string {
@@ -1306,6 +1331,7 @@ func TestKnownFindingWitnesses(t *testing.T) {
 	if !knownActive[knownFirstReqV13] {
 		ws = append(ws, firstReqFamily()...)
 	}
+	ws = append(ws, boundaryFamily()...)
 	for _, w := range ws {
 		o := runCase(t, w)
 		if o.infra != "" {
